@@ -8,22 +8,49 @@
 (A) Trace_PackWire: the real writers.  Every pack is built through golib's constructors / setters from drawn values,
     written by pack.ToBytesPack (twice) or sent through a real OneWayTcpClient to a loopback peer owned by the
     harness; TLC requires the bytes to equal the reference encoding of the projected fields exactly.
-(B) gen "enum": the same small world built with the real constructors and written by the real writers."""
+(B) gen "enum": the same small world built with the real constructors and written by the real writers.
+(O) the pack OBJECT between writes (spec/PackObj.tla): a pack is written more than once in its life and changed in
+    between; every write must be the reference encoding of the content of THAT moment.  MC_PackObj explores the object
+    machine (New / every kind of mutation / Write, every order up to a depth) on the design: a tag hash the library is
+    responsible for is void or the hash of the current tags, every write decodes by the layout alone to the current
+    content.  Trace_PackObj: real packs are built, changed through every public mutator / exported field of the eight
+    types and written 2..8 times (gens hashenum, retag, mut); the harness reports only the calls and their arguments,
+    the content at each write is derived by the specification."""
+from concurrent.futures import ThreadPoolExecutor
+
 import vf
 
 
 def body(run):
     th = run.thorough()
     w = run.pick(4, 16)
-    run.mc("MC_PackWire", cfg="MC_PackWire_thorough.cfg" if th else "MC_PackWire.cfg", workers=w, coverage=not th)
-    if run.mc_runs[-1].get("actions_never_taken"):
-        raise vf.MachineryError("MC_PackWire: actions never taken: %s" % run.mc_runs[-1]["actions_never_taken"])
-    run.mc("MC_PackWire", cfg="MC_PackWire_stream_thorough.cfg" if th else "MC_PackWire_stream.cfg", workers=w)
+
+    # the design-level runs do not depend on the driver: they run beside it (one TLC at a time)
+    def design():
+        run.mc("MC_PackWire", cfg="MC_PackWire_thorough.cfg" if th else "MC_PackWire.cfg", workers=w, coverage=not th)
+        if run.mc_runs[-1].get("actions_never_taken"):
+            raise vf.MachineryError("MC_PackWire: actions never taken: %s" % run.mc_runs[-1]["actions_never_taken"])
+        run.mc("MC_PackWire", cfg="MC_PackWire_stream_thorough.cfg" if th else "MC_PackWire_stream.cfg", workers=w)
+        run.mc("MC_PackObj", cfg="MC_PackObj_thorough.cfg" if th else "MC_PackObj.cfg", workers=w)
+        run.mc("MC_PackObj", cfg="MC_PackObj_content_thorough.cfg" if th else "MC_PackObj_content.cfg", workers=w)
+
+    pool = ThreadPoolExecutor(max_workers=1)
+    mcs = pool.submit(design)
+    try:
+        traces(run)
+    finally:
+        pool.shutdown(wait=True)
+    mcs.result()          # a failure of the design runs is raised here
+
+
+def traces(run):
     out, meta = run.drive("c05")
     run.absorb(meta)
     run.validate(out, meta)
     # Enc events are independent of each other (the writer is a function of the pack): removing one is not an error
-    run.selftest(out, meta, gen="retag", field="bytes", removed=False)
+    run.selftest(out, meta, gen="rand", field="bytes", removed=False)
+    # object histories: a corrupted write and a call that is not reported (the content moves on without the specification)
+    run.selftest(out, meta, gen="retag", spec="Trace_PackObj", field="bytes", remove_match={"ev": "Mut"})
     run.selftest(out, meta, gen="frame", field="bytes", remove_match={"ev": "Recv"})
     run.assumptions += [
         "a pack is projected from the values the generator drew (encoding/binary, math.Float32bits only), never read back through golib; exceptions: TagCountPack.GetTagHash / LogSinkPack.TagHash are read with the public getter / field (information only for tag-count: the specification derives the hash from the tags)",
@@ -31,5 +58,8 @@ def body(run):
         "the layout is written from the field list of the property statement, the pack-type constants and the Java-derived section structure (presence bytes, version byte 9 of the meter sections, version 2 of the unknown-caller section, the retired per-kind meter count 0) that golib's reader and its comments document; for the caller-POID section of the counter pack (decimal count, then pcode, oid, time, count, error, actx as decimals, no version byte, no per-entry array) golib's WRITER is the only source: golib's reader expects an extra array per entry (a C03 finding), and which of the two the Java collector implements cannot be decided from this repository",
         "limits of the layout respected by the generators: counts that travel in one byte (event attributes incl. the reserved keys, the two short arrays of the counter pack) stay <= 255; hit-map cells beyond 16 bits keep their low half (the layout has 16 bits per cell); event attribute values are strings; Tags of tag-count / log-sink packs are never nil",
         "the connection-pool maps of the counter pack are hash tables: their entries are compared as a bag (order taken from the wire) in ToBytesPack events, and have at most one entry in packs that go through the TCP client",
-        "tag-count packs: tags are changed through PutTag only (direct mutation of the exported Tags map after a first write is not generated)",
+        "tag-count packs: the exported Tags map is assigned / edited directly only while no tag hash is cached (before the first write with tags, or right after PutTag); afterwards tags are changed through PutTag only -- the private hash cannot follow an edit of the exported map, and the pack offers no call to void it",
+        "log-sink packs: the tag hash is an exported field: a caller who assigns it or edits the exported tag map under a cached hash owns the result (the hash is then sent as it is); every LIBRARY call that changes the tags must void it (specified in PackObj!Transfer / checked by MC_PackObj HashOwned)",
+        "object histories: arguments of the calls are reported from the drawn values (standard library only); after SetUuid the generated id is read from the exported Uuid field; whether a tag-count hash is cached is asked through the public getter only to steer the generator; ParamPack.Clear is never called (it recurses without end -- candidate-defects.md; a stack overflow cannot be recovered by the harness); HitMapPack1.Add is called with non-negative times only; SetContentBytes gets well-formed version-1 blobs, other versions, empty and nil (a truncated version-1 blob leaves a half-applied pack behind and is outside the layout property)",
+        "Reread (pack.ToPack of the bytes just written, then the history continues on the decoded object) is used for the kinds whose reader restores the content as it is (tag-count, log-sink, text, parameter, zip); the readers of event / hit-map / counter normalise or drop content (C03) and are not used to continue a history",
     ]
